@@ -10,6 +10,8 @@ from __future__ import annotations
 import itertools
 import uuid
 
+from rv.core import scribble
+
 ANCHORS = ("geometry/operations.py",)
 THOROUGH_SHARDS = 8
 
@@ -47,11 +49,27 @@ def _components(n, edges):
     return sorted(comps.values())
 
 
-def judge(ctx, n, edges, directed_answers=False):
+def judge(ctx, n, edges):
     """edges: list of [i, j] with i<j. The relation is symmetric."""
+    seqs = _judge_once(ctx, n, edges)
+    if seqs is not None and (n == 0 or ctx.every([n, edges], 3)):
+        # the caller owns the returned list and sequences: it edits them in place (appends, reorders, drops members);
+        # a later call on fresh, equal inputs is judged exactly as the first was
+        try:
+            acted = scribble.scribble(seqs) if isinstance(seqs, list) else 0
+        except Exception:
+            acted = 0
+        if acted:
+            ctx.mon("repeat_after_result_edit")
+            _judge_once(ctx, n, edges, after_edit=True)
+
+
+def _judge_once(ctx, n, edges, after_edit=False):
     from soundevent.geometry import operations as G
 
     spec = {"n": n, "edges": [list(e) for e in edges]}
+    if after_edit:
+        spec["history"] = "same call made before; its returned list was edited in place by the caller"
     evs = _events(n, ctx.rng)
     pos = {id(e): i for i, e in enumerate(evs)}
     eset = {frozenset(e) for e in edges}
@@ -66,8 +84,8 @@ def judge(ctx, n, edges, directed_answers=False):
         seqs = G.group_sound_events(evs, cmp)
     except Exception as e:
         ctx.violate_exc("raises", f"raises:{type(e).__name__}", e, spec=spec)
-        return
-    if n >= 2 and not getattr(judge, "_in_second", False) and ctx.evaluations % 2 == 0:
+        return None
+    if n >= 2 and not after_edit and ctx.evaluations % 2 == 0:
         # second call: the SAME event objects and the SAME callable object, but the relation it implements has
         # changed in the meantime (a threshold attribute was edited): the result must follow the new relation
         edges2 = [e for e in edges[1:]] if edges else [(0, n - 1)]
@@ -102,7 +120,7 @@ def judge(ctx, n, edges, directed_answers=False):
     if n == 0:
         if list(seqs) != []:
             ctx.violate("empty_input", "empty_input", observed=repr(seqs)[:200], expected=[], spec=spec)
-        return
+        return seqs
     got = []
     for s in seqs:
         idx = [pos.get(id(e), -1) for e in s.sound_events]
@@ -110,7 +128,7 @@ def judge(ctx, n, edges, directed_answers=False):
     flat = [i for g in got for i in g]
     if sorted(flat) != list(range(n)):
         ctx.violate("partition", "partition", observed=got, expected="each input event exactly once", spec=spec)
-        return
+        return seqs
     if any(g != sorted(g) for g in got):
         ctx.violate("input_order", "input_order", observed=got, expected="input order inside each sequence", spec=spec)
     want = _components(n, edges)
@@ -121,6 +139,7 @@ def judge(ctx, n, edges, directed_answers=False):
     uu = [s.uuid for s in seqs]
     if len(set(uu)) != len(uu):
         ctx.violate("sequence_ids_distinct", "sequence_ids_distinct", observed=[str(u) for u in uu], spec=spec)
+    return seqs
 
 
 def _nontrivial(n, edges):
